@@ -127,6 +127,9 @@ class MBox:
         self.subscribed = False
         self.noselect = False
         self.ledger = {}  # uid -> tok (this incarnation)
+        self.claims = {}  # uid -> (tok, command): what an APPENDUID / COPYUID said the uid holds
+        self.maybe = {}  # tok -> MMsg: deliveries whose fate the model lost track of (may turn up, need not)
+        self.nonrecent = set()  # uids the observer has seen without \Recent (it can never come back)
         self.uncertain = False  # model lost track (after a tolerated finding)
 
     def by_uid(self, uid):
@@ -491,7 +494,7 @@ class Interp:
         if uid is None and "FLAGS" in items:
             # cell not yet bound to a uid for this session: resolve through the
             # model when the view is in step with it, else forget what we knew
-            if box is not None and not box.uncertain and len(sess.view) == len(box.msgs):
+            if box is not None and not box.uncertain and self.view_synced(sess, box):
                 uid = box.msgs[n - 1].uid
             if uid is None:
                 ms.know = {}
@@ -514,6 +517,13 @@ class Interp:
 
     def ledger_bind(self, box, uid, tok, sid, seq=None):
         self.C("c02_ledger")
+        cl = box.claims.get(uid)
+        if cl is not None:
+            # holds under every schedule: the UID an APPENDUID/COPYUID reported is the UID of that message
+            self.C("c02_reported_uid_checked")
+            if cl[0] != tok:
+                del box.claims[uid]
+                self.V("C02", "reported_uid_names_other_message", mailbox=box.name, uid=uid, reported_by=cl[1], reported_tok=cl[0], holds_tok=tok, session=sid)
         old = box.ledger.get(uid)
         if old is None:
             box.ledger[uid] = tok
@@ -573,6 +583,27 @@ class Interp:
                             "tok": corpus.tok_of(body),
                         }
                     )
+                # C05: a session that opened the mailbox with EXAMINE never changes its messages or
+                # flags - reading the flags must not have taken \\Recent away (sequential mode: nobody
+                # else is running)
+                rec = sorted(m["uid"] for m in out["msgs"] if "\\recent" in {canon_flag(x) for x in m["rawflags"]})
+                if rec and self.sequential and sess is None:
+                    self.C("c05_examine_keeps_recent")
+                    f2 = await o.command("UID FETCH 1:* (UID FLAGS)")
+                    rec2 = set()
+                    if f2.ok:
+                        for u in f2.untagged:
+                            if u.kind != "FETCH":
+                                continue
+                            try:
+                                it = fetch_items(u)
+                            except Exception:
+                                continue
+                            if "UID" in it and "\\recent" in {canon_flag(x) for x in it.get("FLAGS", [])}:
+                                rec2.add(int(it["UID"]))
+                        lost = [u_ for u_ in rec if u_ not in rec2]
+                        if lost:
+                            self.V("C05", "examine_fetch_cleared_recent", mailbox=box.name, uids=lost, why=why)
             else:
                 out["fetch_failed"] = f.brief()
         await o.command("UNSELECT")
@@ -648,6 +679,15 @@ class Interp:
             self.V("C17", "mailbox_unselectable", mailbox=box.name, reply=p["res"].brief(), why=why)
             return
         got = p["msgs"]
+        if box.maybe:
+            have = {m.tok for m in box.msgs}
+            for i, g in enumerate(got):
+                mm = box.maybe.get(g["tok"])
+                if mm is not None and g["tok"] not in have:
+                    del box.maybe[g["tok"]]
+                    mm.flags = g["flags"]  # whatever happened to it meanwhile
+                    mm.amb = mm.mh_amb = True
+                    box.msgs.insert(min(i, len(box.msgs)), mm)
         exp = box.msgs
         self.C("probe_compare")
         self.ctx.state_hashes.add(hashlib.sha1(repr([(m.tok, sorted(m.flags)) for m in exp]).encode()).hexdigest()[:12])
@@ -724,7 +764,6 @@ class Interp:
             if not missing and not extra:
                 self.V("C03", "order_or_uid_changed", mailbox=box.name, why=why, expected=[(m.uid, m.tok) for m in exp], got=[(g["uid"], g["tok"]) for g in got])
             self.adopt(box, got)
-            box.msgs.extend(hidden)
             return
         for m, g in zip(exp, got):
             if m.uid is None:
@@ -744,6 +783,15 @@ class Interp:
                 )
                 m.flags = g["flags"]
             rf = {canon_flag(x) for x in g["rawflags"]}
+            # C04: \Recent can never be set by a client - once a message has been seen without it
+            # (by the observer's own FETCH, never from a queued notification) it stays without
+            self.C("c04_recent_monotonic")
+            if "\\recent" in rf:
+                if g["uid"] in box.nonrecent:
+                    box.nonrecent.discard(g["uid"])
+                    self.V("C04", "recent_set_again", mailbox=box.name, uid=g["uid"], tok=m.tok, flags=sorted(rf), why=why)
+            else:
+                box.nonrecent.add(g["uid"])
             if ("unseen" in rf) == ("\\seen" in rf):
                 self.C("c04_seen_unseen")
                 if "unseen" in rf:
@@ -758,6 +806,12 @@ class Interp:
         self.compare_mh_sequences(box, why)
 
     def adopt(self, box, got):
+        # never-observed deliveries that are not (yet) listed: the model no longer knows whether
+        # the server has noticed them (and perhaps moved or expunged them) - they may turn up
+        seen = {g["tok"] for g in got}
+        for m in box.msgs:
+            if m.uid is None and m.born is not None and m.tok not in seen:
+                box.maybe[m.tok] = m
         box.msgs = [MMsg(g["uid"], g["tok"], g["flags"], g["date"]) for g in got]
         box.uncertain = False
 
@@ -1058,6 +1112,8 @@ class Interp:
                 self.V("C02", "uid_reused", mailbox=box.name, uid=uid, max_uid=box.max_uid, where="APPENDUID")
             m.uid = uid
             box.max_uid = max(box.max_uid, uid)
+            if uvv == box.uvv or box.uvv is None:
+                box.claims[uid] = (tok, "APPENDUID")
         else:
             self.V("C02", "appenduid_missing", mailbox=box.name, reply=r.brief())
         box.msgs.append(m)
@@ -1283,10 +1339,48 @@ class Interp:
                     return None
         return None
 
+    def disk_flags_at_quiescence(self, name, here):
+        """C13 second half under concurrency: once every command has completed, .mh_sequences (as
+        an MH tool reads it) shows the flags the IMAP side reports - whatever the interleaving was."""
+        fake = MBox(name)
+        seqs = self.read_mh_sequences(fake)
+        if "__error__" in seqs:
+            self.V("C13", "mh_sequences_unreadable", mailbox=name, error=seqs["__error__"], why="quiescence")
+            return
+        keys = self.live_keys(fake)
+        self.C("c13_disk_flags_quiescence")
+        live = set(keys)
+        stale = {n: sorted(set(v) - live) for n, v in seqs.items() if set(v) - live}
+        if stale:
+            self.V("C13", "mh_sequences_stale_key", mailbox=name, stale=stale, live=keys, why="quiescence")
+        if len(keys) != len(here):
+            return  # a delivery of this very second is not visible yet
+        path = os.path.join(self.maildir, name)
+        had_delivery = any(p_ == path for p_, _ in self.delivered)
+        rev = {v: k for k, v in FLAG_TO_SEQ.items()}
+        for key, uid in zip(keys, sorted(here)):
+            imap = set(norm_flags(here[uid]))
+            inseq = {n for n, v in seqs.items() if key in v}
+            mh = set()
+            if "unseen" not in inseq:
+                mh.add("\\seen")
+            for n in inseq:
+                if n not in ("unseen", "Seen", "Recent"):
+                    mh.add(canon_flag(rev.get(n, n)))
+            if had_delivery:
+                # an MH agent writes the file and the `unseen` mark in two steps: which of them the
+                # server saw first is its own business
+                imap.discard("\\seen")
+                mh.discard("\\seen")
+            if imap != mh:
+                self.V("C13", "mh_sequences_diverge", mailbox=name, key=key, uid=uid, imap=sorted(imap), mh=sorted(inseq), why="quiescence", mode="concurrent")
+                break
+
     async def check_hit_oracles(self):
         """End of a concurrent run: where did every tagged STORE land; are the messages a
         UID FETCH did not answer for still there?"""
-        if not (self.tags or self.unanswered or self.uidexp_only) or self.obs is None or self.obs.lost:
+        want_disk = bool(self.props & {"C13", "C04"})
+        if not (self.tags or self.unanswered or self.uidexp_only or want_disk) or self.obs is None or self.obs.lost:
             return
         r = await self.obs.command('LIST "" "*"')
         if not r.ok:
@@ -1321,6 +1415,8 @@ class Interp:
                     self.C("c03_tag_checked")
                     if uid not in rec["asked"]:
                         self.V("C03", "store_hit_wrong_message", session=rec["session"], cmd=rec["cmd"], asked=sorted(rec["asked"]), hit=uid, mailbox=name)
+            if want_disk:
+                self.disk_flags_at_quiescence(uvv[0], here)
             if self.uidexp_only and not self.other_removal and uvv in self.seen_uids:
                 # nothing but UID EXPUNGE <explicit set> removed messages in this run: whatever is gone was named by one
                 self.C("c05_uidexpunge_only_checked")
@@ -1477,6 +1573,17 @@ class Interp:
         sel = getattr(ms, "sel_uvv", None)
         if cu is not None and sel is not None and cu[0] == sel[1] and (dstname.lower() == sel[0].lower()):
             self.selfcopied.add(sel)
+        if cu is not None and dst is not None and (dst.uvv is None or dst.uvv == cu[0]):
+            try:
+                c_ = code_of(r, "COPYUID")
+                du_ = parse_uidset(str(c_[2])) if c_ and len(c_) > 2 else []
+            except Exception:
+                du_ = []
+            if len(du_) == len(cu[1]):
+                for su_, d_ in zip(cu[1], du_):
+                    t_ = box.ledger.get(su_)
+                    if t_ is not None:
+                        dst.claims[d_] = (t_, f"COPYUID of {verb} {txt}")
         st_ = op.get("set") or {"all": True}
         if cu is not None and op.get("uid") and valid is True and uids is not None and "all" not in st_ and "raw" not in st_:
             # under every schedule: the messages reported as copied are among those the UID set named
@@ -2152,6 +2259,8 @@ class NamespaceOps:
             box.uvv_history.append(box.uvv)
             box.uvv = None
             box.ledger = {}
+            box.claims = {}
+            box.nonrecent = set()
             box.max_uid = 0
             box.uidnext_told = 0
         else:
@@ -2166,6 +2275,8 @@ class NamespaceOps:
                 box.msgs = []
                 box.uvv = None
                 box.ledger = {}
+                box.claims = {}
+                box.nonrecent = set()
                 box.max_uid = 0
                 box.uidnext_told = 0
                 self.model.boxes[key] = box
